@@ -105,32 +105,38 @@ theorem charOfNat_toNat (n : Nat) (h : n < 256) : (Char.ofNat n).toNat = n := by
   have hv : n.isValidChar := Or.inl (by omega)
   simp [Char.ofNat, hv, Char.ofNatAux, Char.toNat]
 
-theorem escByte_piece (b : UInt8) (h : b.toNat ≠ 92) :
+theorem escByte_piece (b : UInt8) :
     scanBOK (escByte b) = true ∧ UnqBPiece (escByte b) [b] := by
   have hb : UInt8.ofNat b.toNat = b := UInt8.ofNat_toNat
+  by_cases h : b.toNat = 92
+  · have hr : escByte b = ['\\', '\\'] := by simp [escByte, h]
+    rw [hr]
+    refine ⟨by simp [scanBOK], unqBPiece_esc '\\' b (fun tl => ?_)⟩
+    have : byteOf '\\' = b := by rw [← hb, h]; rfl
+    simp [bytesEscape, this]
   by_cases h1 : b.toNat = 39
-  · have hr : escByte b = ['\\', '\''] := by simp [escByte, h1]
+  · have hr : escByte b = ['\\', '\''] := by simp [escByte, h, h1]
     rw [hr]
     refine ⟨by simp [scanBOK], unqBPiece_esc '\'' b (fun tl => ?_)⟩
     have : byteOf '\'' = b := by rw [← hb, h1]; rfl
     simp [bytesEscape, this]
   by_cases h2 : b.toNat = 9
-  · have hr : escByte b = ['\\', 't'] := by simp [escByte, h2]
+  · have hr : escByte b = ['\\', 't'] := by simp [escByte, h, h2]
     rw [hr]
     refine ⟨by simp [scanBOK], unqBPiece_esc 't' b (fun tl => ?_)⟩
     have : (9 : UInt8) = b := by rw [← hb, h2]; rfl
     simp [bytesEscape, this]
   by_cases h3 : b.toNat = 10
-  · have hr : escByte b = ['\\', 'n'] := by simp [escByte, h3]
+  · have hr : escByte b = ['\\', 'n'] := by simp [escByte, h, h3]
     rw [hr]
     refine ⟨by simp [scanBOK], unqBPiece_esc 'n' b (fun tl => ?_)⟩
     have : (10 : UInt8) = b := by rw [← hb, h3]; rfl
     simp [bytesEscape, this]
   by_cases h4 : b.toNat ≤ 0x1f ∨ 0x7e ≤ b.toNat
-  · have hr : escByte b = '\\' :: 'x' :: hex2 b.toNat := by simp [escByte, h1, h2, h3, h4]
+  · have hr : escByte b = '\\' :: 'x' :: hex2 b.toNat := by simp [escByte, h, h1, h2, h3, h4]
     rw [hr]
     exact ⟨scanBOK_x _, unqBPiece_x b⟩
-  · have hr : escByte b = [Char.ofNat b.toNat] := by simp [escByte, h1, h2, h3, h4]
+  · have hr : escByte b = [Char.ofNat b.toNat] := by simp [escByte, h, h1, h2, h3, h4]
     rw [hr]
     have hlt : b.toNat < 256 := UInt8.toNat_lt b
     have hn := charOfNat_toNat b.toNat hlt
@@ -149,11 +155,10 @@ theorem lexOne_b (U : UClass) (cs : List Char) :
     lexOne U ('b' :: '\'' :: cs) = lexString false true '\'' cs := by
   simp [lexOne, lexIdent, identLoop, isAlpha, isAsciiLetter]
 
-theorem ppBytes_lex (U : UClass) (b : List UInt8) (rest : List Char)
-    (h : ∀ x ∈ b, x.toNat ≠ 92) :
+theorem ppBytes_lex (U : UClass) (b : List UInt8) (rest : List Char) :
     lexOne U (ppBytes b ++ rest) = .ok (⟨.binStr, .bytes b⟩, rest) := by
-  have h1 := scanBytes_of_scanBOK _ rest (scanBOK_flatMap escByte b (fun x hx => (escByte_piece x (h x hx)).1))
-  have h2 := unqBytes_flatMap escByte b (fun x hx => (escByte_piece x (h x hx)).2)
+  have h1 := scanBytes_of_scanBOK _ rest (scanBOK_flatMap escByte b (fun x _ => (escByte_piece x).1))
+  have h2 := unqBytes_flatMap escByte b (fun x _ => (escByte_piece x).2)
   simp only [ppBytes, List.cons_append, List.append_assoc, List.nil_append, lexOne_b]
   simp [lexString, h1, h2]
 
